@@ -35,6 +35,7 @@ func TestGone(t *testing.T) {
 
 class C05(Prop):
     pid = "C05"
+    wants_dirs = True
     shrinkable = False      # a case IS one cell of the table (recording run + judged call); nothing to shrink
     rule = ("EXHAUSTIVE enumeration of CI in {on,off} x Update option in {unset,true,false} x UPDATE_SNAPS in "
             "{unset,true,clean, 11 other strings incl. 1/t/TRUE/True/false/yes} x five entry points x entry state in {missing, equal, different} = 360 cells (x the other-string variants), "
